@@ -676,8 +676,8 @@ func TestCheck(t *testing.T) {
 		"undetermined_excluded":         int(undetTotal),
 		"undetermined_by_reason":        undet,
 		"undetermined_where_model_reading_differs_from_impl": undetDiffers,
-		"sections":                      secNames,
-		"value_set_sizes":               fmt.Sprintf("V=%d (unary adds %d typed values), V'=%d, sequence alphabet=%d over %d operand values, compound alphabet=%d over %d aliasing prefixes", len(valuesV()), len(valuesTyped()), len(valuesTernary()), len(seqAlphabet()), len(seqValues(r)), len(compoundAlphabet()), len(compoundPrefixes())),
+		"sections":        secNames,
+		"value_set_sizes": fmt.Sprintf("V=%d (unary adds %d typed values), V'=%d, sequence alphabet=%d over %d operand values, compound alphabet=%d over %d aliasing prefixes", len(valuesV()), len(valuesTyped()), len(valuesTernary()), len(seqAlphabet()), len(seqValues(r)), len(compoundAlphabet()), len(compoundPrefixes())),
 	}, []string{
 		"the C# JSON vectors (pkg/vm/testdata/neo-vm) are an empty submodule here: the model is bound to the reference by the cited opcode descriptions / .NET BigInteger documentation and by the self-test facts, not by vectors",
 		"latest hardfork behaviour (vm.New() enables all hardforks): SHL/SHR by 0 yield an Integer (Gorgon, docs/node-configuration.md)",
